@@ -40,6 +40,18 @@ def main(argv):
         rep.count("modules parsed", len(prog.modules))
         rep.count("functions parsed", sum(1 for _ in prog.all_functions()))
         mod.run(rep, prog, thorough)
+        if thorough and not rep.violations and not os.environ.get("VERIF_NO_SELFTEST"):
+            # self-validation of the checker on scratch copies (breaking variants must be reported, twins must stay silent)
+            from sa.selftest import selftest
+            summary, problems, detail = selftest(pid)
+            rep.extra_cov["selftest"] = summary
+            rep.extra_cov["selftest_detail"] = [{"kind": k, "name": n, "exit": rc, "first_line": f} for k, n, rc, f in detail]
+            for k, v in summary.items():
+                rep.count("selftest: " + k, v)
+            if problems:
+                for p_ in problems:
+                    print("SELFTEST-PROBLEM " + p_)
+                raise AnalysisError("checker self-validation failed (%d problem(s)): the verdict on the tree is not trusted" % len(problems))
 
     return run_check(pid, body, "thorough" if thorough else "quick")
 
